@@ -35,6 +35,37 @@ CHECKS = {
    text="All histories of Append/Prepend/Replace/Clear with 6 argument shapes from 3 initial lists to depth 7 (quick) / 10 (thorough): All() equals the model, caller slices are never modified or retained, and the rendered comments equal All().",
    note="states merged by (relabelled contents, spare capacity): the methods never inspect string values", ref="DESIGN.md §4 C19"),
 }
+
+CHECKS.update({
+ "C02": dict(level="model_checking", tech="explicit-state BFS over list-edit histories on real trees (fresh parse + replay per state) against a text-chunk reference model",
+   text="For 9 list kinds, two lists of 3+2 differently shaped elements, 6 comment configurations per element and newline/blank/inline separators, every history of swap/delete/duplicate-with-Clone/move-to-other-list up to depth 1 (all layouts) and 2 (36 layouts per kind; thorough 3) prints exactly gofmt of the text whose chunks were edited the same way.",
+   note="layouts whose neighbours would not all be separated alike are outside the quantifier (counted); inline leading comments and comments inside import specs are outside the chunk definition", ref="DESIGN.md §4 C02"),
+ "C04": dict(level="model_checking", tech="exhaustive enumeration of point subsets on the documented examples plus a structural rule on every corpus node instance; token+comment sequence oracle",
+   text="For each of the 70 documented examples every subset of <=2 points (thorough: all subsets) x {block, line, newline} placed directly on the node prints where the documentation shows it (block) / exactly once with unchanged tokens (line, newline); for every node instance of the corpus every point singly and all points together obey: exactly once, Start before the first token, End after the last (before the next separately emitted token), points in order; helper and accessor laws for every node type.",
+   note="the documentation is the snapshot of gendst/data/positions.go; ',' and ';' are ignored when locating comments", ref="DESIGN.md §4 C04"),
+ "C07": dict(level="model_checking", tech="exhaustive enumeration of import configurations; independent import-table oracle on the re-parsed output plus go/types",
+   text="Every configuration of (used-path set, existing import shape, alias override, resolver map, local path) over a 5-path universe is restored with import management and judged by an oracle that does not share code with updateImports: reference binding, exact import set, distinct names, alias preference, order/comments when nothing is added, repeatability, type-checks.",
+   note="references are identified by package-specific names (Fi/Ti/Vi); gofmt's own import sorting is accounted for when judging order", ref="DESIGN.md §4 C07"),
+ "C09": dict(level="model_checking", tech="exhaustive enumeration of generated type-correct programs; oracle computed from go/types",
+   text="For 5 dependency paths (plain, dotted, vendored, nested-vendored, root vendor) x 3 import styles x a 28-role catalogue (singly and in ordered pairs) x shadowing modes, every identifier's path from the types-based resolver equals the classification computed from go/types; the syntax-based resolver agrees or errors where it must.",
+   note="only files that type-check are in the quantifier", ref="DESIGN.md §4 C09"),
+ "C10": dict(level="model_checking", tech="exhaustive enumeration of (source styles, target styles, item, used set, move history) on typed worlds; go/types acceptance oracle",
+   text="Every combination of source import styles, target import styles (absent/plain/alias/dot), moved item (function, function using a source-local function, variable, statement), dependency subset and history (single, chain, two items, back, clone) yields a target that type-checks with every moved reference denoting the same package-level object.",
+   note="type-incorrect source/target files are outside the quantifier (counted)", ref="DESIGN.md §4 C10"),
+ "C14": dict(level="model_checking", tech="choice-tree exploration of cursor scripts driving dstutil.Apply and x/tools astutil.Apply on twin trees",
+   text="For 15 sources covering every list field plus a 3-file package, every 1-site script over 22 actions and every 2-site script over the 6 basic actions (thorough: 2 sites x 22, 3 sites x 6) produces identical callback logs, panics and final trees in dstutil.Apply and astutil.Apply, and Parent/Name/Index locate Node at every callback.",
+   note="astutil v0.1.12 is the reference; its Doc/Comment callbacks and nil TypeParams callbacks are normalised away", ref="DESIGN.md §4 C14"),
+ "C17": dict(level="fault_enumeration", tech="fault-position enumeration with the choice-tree explorer (a failing resolver call is a deviation), histories of up to two failures then success",
+   text="For every import-bearing template and 8 entry configurations, every position of the resolver call sequence is failed once and in pairs (fail, retry-fail, retry): error wraps the injected one, no panic, no output, no tree, input unchanged, final retry equals the failure-free result.",
+   note="map orders that decide which path is resolved k-th are left to C16", ref="DESIGN.md §4 C17"),
+ "C18": dict(level="model_checking", tech="exhaustive enumeration of object-rich sources and file subsets; graph-isomorphism oracle by reflection and differential against go/ast.NewPackage",
+   text="For 15 object-rich sources and the whole corpus the decorator's and the Extras-restorer's object/scope/node maps are graph isomorphisms; for every subset of <=3 files of a 10-file pool x importer x universe, dst.NewPackage agrees with go/ast.NewPackage on scope, errors, remaining unresolved names and resolutions.",
+   note="for names declared twice only the name (not the surviving kind) is compared, since file order is a map order on both sides", ref="DESIGN.md §4 C18"),
+ "C20": dict(level="fault_enumeration", tech="exhaustive enumeration of package shapes and edit assignments on a real temporary directory, crossed with every failing resolver call (choice tree)",
+   text="For packages of 1-3 files in 1-2 directories next to unrelated files, every edit assignment and every single resolver failure: SaveWithResolver creates/removes nothing, writes exactly the import-managed print of each file, leaves unedited files byte-identical and, on failure, returns the error and leaves the failing and all later files untouched.",
+   note="decorator.Load (go/packages) is not exercised; packages are hand-built with the fields Load fills", ref="DESIGN.md §4 C20"),
+})
+
 NA_REASON = "check not built yet in this session (planned, see DESIGN.md)"
 def main():
     checks = []
